@@ -218,6 +218,12 @@ func parsedSig(src []byte, b *hclsyntax.Body, sb *strings.Builder) {
 	}
 }
 
+func clobberLabels(ls []string) {
+	for i := range ls {
+		ls[i] = "clobbered-by-caller"
+	}
+}
+
 func accessorCheck(b *mBody) string {
 	attrs := b.w.Attributes()
 	want := map[string]bool{}
@@ -269,6 +275,10 @@ func accessorCheck(b *mBody) string {
 		}
 		if fm.Type() != mb.name || fmt.Sprintf("%q", nfcAll(fm.Labels())) != fmt.Sprintf("%q", nfcAll(mb.labels)) {
 			return fmt.Sprintf("FirstMatchingBlock(%q, %q) returned %s %q", mb.name, mb.labels, fm.Type(), fm.Labels())
+		}
+		clobberLabels(got) // (what an accessor returned is the caller's to change)
+		if again := blocks[i].Labels(); fmt.Sprintf("%q", nfcAll(again)) != fmt.Sprintf("%q", nfcAll(mb.labels)) {
+			return fmt.Sprintf("Block.Labels() = %q after the caller changed the slice an earlier Labels() call returned; model says %q", again, mb.labels)
 		}
 		if m := accessorCheck(mb.body); m != "" {
 			return m
@@ -539,12 +549,16 @@ func c12Case(c *core.Case) {
 			if op == 6 {
 				history = append(history, fmt.Sprintf("%s: AppendNewBlock(%q, %q)", bodyPath(b), typ, labels))
 				record()
-				wblk = b.w.AppendNewBlock(typ, labels)
+				mine := append([]string(nil), labels...)
+				wblk = b.w.AppendNewBlock(typ, mine)
+				clobberLabels(mine) // (the slice stays the caller's)
 				kinds["AppendNewBlock"] = true
 			} else {
 				history = append(history, fmt.Sprintf("%s: AppendBlock(NewBlock(%q, %q))", bodyPath(b), typ, labels))
 				record()
-				wblk = b.w.AppendBlock(hclwrite.NewBlock(typ, labels))
+				mine := append([]string(nil), labels...)
+				wblk = b.w.AppendBlock(hclwrite.NewBlock(typ, mine))
+				clobberLabels(mine)
 				kinds["AppendBlock"] = true
 			}
 			ni := &mItem{isBlock: true, name: typ, labels: labels, touched: true, wblock: wblk}
@@ -649,7 +663,9 @@ func c12Case(c *core.Case) {
 			}
 			history = append(history, fmt.Sprintf("%s: %s.SetLabels(%q)", bodyPath(b), blockDesc(mi), labels))
 			record()
-			mi.wblock.SetLabels(labels)
+			mine := append([]string(nil), labels...)
+			mi.wblock.SetLabels(mine)
+			clobberLabels(mine)
 			mi.labels = labels
 			mi.touched = true
 			b.touchUp()
